@@ -561,7 +561,7 @@ func (r *RigS) judgeResponse(o *SOpRec) {
 			}
 			t.Fuzzy = t.Fuzzy || faulty
 		} else if o.Code == 200 {
-			r.s.Violate("C11", "unknown_task_accepted", "pause of unknown task %s answered 200", op.Task)
+			r.s.Violate("C11", "unknown_task_accepted"+r.ghostClass(op.Task), "pause of unknown task %s answered 200", op.Task)
 		}
 	case "resume":
 		if t != nil {
@@ -576,7 +576,7 @@ func (r *RigS) judgeResponse(o *SOpRec) {
 			}
 			t.Fuzzy = t.Fuzzy || faulty
 		} else if o.Code == 200 {
-			r.s.Violate("C11", "unknown_task_accepted", "resume of unknown task %s answered 200", op.Task)
+			r.s.Violate("C11", "unknown_task_accepted"+r.ghostClass(op.Task), "resume of unknown task %s answered 200", op.Task)
 		}
 	case "delete":
 		if t != nil {
@@ -589,6 +589,19 @@ func (r *RigS) judgeResponse(o *SOpRec) {
 			}
 		}
 	}
+}
+
+// ghostClass: a task the model does not know (never created successfully, or deleted) can still be known to the service
+// through one of the known store defects: its record was written back after its deletion, or a write concerning it was
+// applied but reported as failed.
+func (r *RigS) ghostClass(task string) string {
+	if r.st.Rewritten[task] {
+		return "_record_rewritten_after_delete"
+	}
+	if r.st.Ambiguous[task] {
+		return "_after_ambiguous_store_error"
+	}
+	return ""
 }
 
 // stateBefore: the in-memory state of the task in the snapshot taken right before the request in flight was issued
@@ -961,6 +974,21 @@ func (r *RigS) checkViews(tasks map[string]*meta.TaskInfo, sn server.VerifSnapsh
 					if (rec.K == "pause" || rec.K == "delete") && rec.Code == 200 && rec.Inc == r.plan.Incarnation && st.RegStep >= rec.Issued {
 						// the stream was being registered when the stop request came (start of the collection still in progress)
 						cls = "_registration_in_flight_at_stop"
+					}
+				}
+			}
+			if cls == "" {
+				// the same race with a pause the task made on its own (a failure): the registration completed at or after
+				// the step in which the Paused state was written
+				for _, id := range SortedKeys(tasks) {
+					ti := tasks[id]
+					if ukeyOf(ti) != uri || ti.State != meta.TaskStatePaused {
+						continue
+					}
+					if _, sel := server.GetShouldReadFunc(ti)(&coremodel.DatabaseInfo{Name: c.DB}, collInfoOf(c.Name)); sel {
+						if at, ok := r.bgWriteStep[id]; ok && st.RegStep >= at {
+							cls = "_registration_in_flight_at_stop"
+						}
 					}
 				}
 			}
